@@ -2485,7 +2485,9 @@ class Tail(Expr):
         raise NotImplementedError()
 
     def _simplify_down(self):
-        if isinstance(self.frame, Elemwise):
+        # ResetIndex labels the rows of a partition from 0: the labels of the last
+        # rows depend on the rows in front of them
+        if isinstance(self.frame, Elemwise) and not isinstance(self.frame, ResetIndex):
             operands = [
                 (
                     Tail(op, self.n)
